@@ -50,6 +50,7 @@ CONSTANTS
   RecvConn = %(recvconn)d
   Reaper = %(reaper)s
   Legal = %(legal)s
+  Resets = %(resets)s
   BurstMin = 2
   Deviations = %(dev)s
 %(checks)s
@@ -58,7 +59,7 @@ CHECK_DEADLOCK FALSE
 SAFETY = ("INVARIANTS TypeOK P_C14_Windows P_C14_NewStreamWindow P_C14_FrameSize P_C14_WholeFrames P_C14_MaxStreams P_C14_StreamIds "
           "P_C14_Hpack P_C14_StreamStates P_C14_OwnWindows P_C14_Progress P_C14_NeverDropped P_C14_OwedIsEnabled\n"
           "PROPERTIES P_C14_WindowSteps")
-ACTIONS = ["Peer_Settings", "Peer_Open", "Peer_Respond", "Peer_WindowUpdate", "Peer_SendData", "Peer_Starve", "Sozu_Settings",
+ACTIONS = ["Peer_Settings", "Peer_Open", "Peer_Respond", "Peer_WindowUpdate", "Peer_SendData", "Peer_Starve", "Peer_Rst", "Sozu_Settings",
            "Sozu_AckSettings", "Sozu_Goaway", "Sozu_Rst", "Sozu_SendHeaders", "Sozu_SendCont", "Sozu_SendData", "Sozu_WindowUpdate",
            "Env_Stall"]
 LIVE = "INVARIANTS TypeOK\nPROPERTIES P_C14_BodiesComplete P_C14_PeerNeverStuck"
@@ -80,6 +81,7 @@ CONSTANTS
   RecvConn = 1048576
   Reaper = TRUE
   Legal = FALSE
+  Resets = TRUE
   BurstMin = 2500
   Deviations = %(dev)s
 CONSTRAINT Track
@@ -105,6 +107,7 @@ CONSTANTS
   RecvConn = 2
   Reaper = FALSE
   Legal = TRUE
+  Resets = FALSE
   BurstMin = 2
   Deviations = {}
   MaxHist = %(maxhist)d
@@ -130,12 +133,12 @@ def write(path, text):
 
 def mc_cfg(wd, name, checks=SAFETY, spec="Spec", role="server", ids=(1, 3), maxwin=4, conninit=2, sv="SV_Win",
            ha="HA_Plain", maxset=2, bodies=(3,), ups=(0,), grants=(1, 2), hdrlens=(1,), recvinit=2, recvconn=2,
-           reaper=False, legal=True, dev=()):
+           reaper=False, legal=True, dev=(), resets=False):
     return write(os.path.join(wd, name), MC % {
         "spec": spec, "role": role, "ids": tla(list(ids)), "maxwin": maxwin, "conninit": conninit, "sv": sv, "ha": ha,
         "maxset": maxset, "bodies": tla(list(bodies)), "ups": tla(list(ups)), "grants": tla(list(grants)),
         "hdrlens": tla(list(hdrlens)), "recvinit": recvinit, "recvconn": recvconn, "reaper": tla(reaper),
-        "legal": tla(legal), "dev": tla(list(dev)), "checks": checks})
+        "legal": tla(legal), "resets": tla(resets), "dev": tla(list(dev)), "checks": checks})
 
 
 def model_configs(wd, thorough):
@@ -147,29 +150,30 @@ def model_configs(wd, thorough):
     else:
         c.append(("windows-2streams", mc_cfg(wd, "mc_win2.cfg", ids=(1, 3), bodies=(2,), maxwin=2, grants=(1, 2))))
     # one stream, full window range, body up to 4, both frame sizes and every initial window incl. 0
+    # (the peer may also give the stream up: Resets)
     c.append(("windows-1stream", mc_cfg(wd, "mc_win1.cfg", ids=(1,), bodies=(0, 4) if thorough else (3,), sv="SV_Send", ha="HA_Upd",
-                                        maxwin=4 if thorough else 3, grants=(1, 2), legal=True)))
+                                        maxwin=4 if thorough else 3, grants=(1, 2), legal=True, resets=True)))
     # illegal WINDOW_UPDATEs (overflow), the reaper, error answers
     c.append(("errors-reaper", mc_cfg(wd, "mc_err.cfg", ids=(1,), bodies=(2,), sv="SV_Small", ha="HA_Upd", maxwin=3, grants=(1, 3),
-                                      reaper=True, legal=False, maxset=1 if not thorough else 2)))
+                                      reaper=True, legal=False, maxset=1 if not thorough else 2, resets=True)))
     # sozu as the client of an h2c backend: stream limit, identifiers, header blocks in two frames, HPACK table
     c.append(("client-limits", mc_cfg(wd, "mc_cli.cfg", role="client", ids=(1, 3), bodies=(0, 1), ups=(0, 1) if thorough else (0,),
                                       sv="SV_Limits", ha="HA_All", maxwin=2, grants=(1,), hdrlens=(1, 2), recvinit=1, recvconn=2,
                                       maxset=2 if thorough else 1)))
     # receive side: sozu's own windows (enlargement, credits at the threshold, per-frame stream credits)
     c.append(("receive", mc_cfg(wd, "mc_recv.cfg", ids=(1, 3) if thorough else (1,), bodies=(0,), ups=(0, 3), sv="SV_One", maxwin=4,
-                                grants=(1,), recvinit=2, recvconn=4, conninit=2, maxset=1)))
+                                grants=(1,), recvinit=2, recvconn=4, conninit=2, maxset=1, resets=not thorough)))
     return c
 
 
 def live_configs(wd, thorough):
     if not thorough:
         return [("live-server", mc_cfg(wd, "mc_live_s.cfg", checks=LIVE, spec="FairSpec", ids=(1,), bodies=(2,), ups=(1,), sv="SV_Win",
-                                       maxwin=2, conninit=1, grants=(1,), recvinit=1, recvconn=2, maxset=1)),
+                                       maxwin=2, conninit=1, grants=(1,), recvinit=1, recvconn=2, maxset=1, resets=True)),
                 ("live-client", mc_cfg(wd, "mc_live_c.cfg", checks=LIVE, spec="FairSpec", role="client", ids=(1,), bodies=(1,), ups=(1,),
                                        sv="SV_Win", maxwin=2, conninit=1, grants=(1,), recvinit=1, recvconn=2, maxset=1))]
     return [("live-server", mc_cfg(wd, "mc_live_s.cfg", checks=LIVE, spec="FairSpec", ids=(1,), bodies=(2,), ups=(2,), sv="SV_Win",
-                                   maxwin=3, conninit=1, grants=(1,), recvinit=1, recvconn=2)),
+                                   maxwin=3, conninit=1, grants=(1,), recvinit=1, recvconn=2, resets=True)),
             ("live-client", mc_cfg(wd, "mc_live_c.cfg", checks=LIVE, spec="FairSpec", role="client", ids=(1,), bodies=(2,), ups=(1,),
                                    sv="SV_Small", ha="HA_Upd", maxwin=3, conninit=1, grants=(1,), recvinit=1, recvconn=2, maxset=1)),
             ("live-2streams", mc_cfg(wd, "mc_live_2.cfg", checks=LIVE, spec="FairSpec", ids=(1, 3), bodies=(2,), ups=(0,),
@@ -415,7 +419,7 @@ def run(tier, replay=None):
     # 2. every open deviation still breaks the property in the model
     for d in devs:
         rd = vlib.tlc("MC_H2Flow", mc_cfg(wd, "mc_dev_%s.cfg" % d, role="server", ids=(1,), bodies=(2,), ups=(0,), sv="SV_One",
-                                          maxwin=2, grants=(1,), dev=(d,), maxset=1), PID, workers=workers, timeout=600)
+                                          maxwin=2, grants=(1,), dev=(d,), maxset=1, resets=True), PID, workers=workers, timeout=600)
         rep.add_tlc(rd)
         if not rd["violated"]:
             raise vlib.ToolError("deviation %s no longer violates P_C14 in the model" % d)
